@@ -32,6 +32,7 @@ struct Profile {
   int p_casfail = 15;
   bool guard_level = false;     // only op-level preemption
   int p_prep_scn = 0;           // percent of OptimisticLock cases built around the PrepareRead fallback scenario
+  int p_hold = 6;               // percent of X/SIX/S sections that are held for a long time (HOLD n: waiters exhaust their budgets)
   int p_tiny = 25;              // percent of cases that are tiny: one short transaction per thread, 1-3 early preemptions
   int p_nest = 0;               // percent of (non-MCS) cases that contain nested compatible grants of one thread on one lock
   int max_threads_hi = 4;       // thorough tier may raise
@@ -234,8 +235,15 @@ struct Builder {
   }
 
   void
+  maybe_hold()
+  {
+    if (chance(f.p_hold)) emit(HOLD, 0, 0, 0, static_cast<uint32_t>(weighted({3, 2, 1}) == 0 ? pick(5, 40) : weighted({1, 1}) ? pick(40, 120) : pick(200, 320)));
+  }
+
+  void
   x_body(int &jx)
   {
+    maybe_hold();
     const int nw = pick(0, 2);
     for (int k = 0; k < nw; k++) {
       emit(WRITE, jx);
@@ -272,6 +280,7 @@ struct Builder {
   void
   after_six(int ji, int depth)
   {
+    maybe_hold();
     if (chance(50)) emit(READ, kI, ji);
     juggle(kI, ji);
     if (depth < 3 && chance(f.p_conv)) {
@@ -288,6 +297,7 @@ struct Builder {
   {
     int j = pick(0, 1);
     emit(ACQ_S, l, j);
+    maybe_hold();
     const int nr = pick(0, 2);
     for (int k = 0; k < nr; k++) {
       emit(READ, kS, j);
